@@ -21,12 +21,16 @@ from .common import Failure, f2h, h2f, parse_reply, vec
 
 ID = "C13"
 BIN = "c13"
-PROOF_MODULES = ["Compute.Props.C13"]
+PROOF_MODULES = ["Compute.Props.C13", "Compute.Props.C13Review"]
 REQUIRED_THEOREMS = ["Cv.C13.acovf_def", "Cv.C13.acf_def", "Cv.C13.acovf_even", "Cv.C13.acf_even", "Cv.C13.acf_zero",
                      "Cv.C13.acf_abs_le_one", "Cv.C13.acovf_large_lag", "Cv.C13.difference_cumsum",
                      "Cv.C13.fit_intercept", "Cv.C13.fit_yule_walker", "Cv.C13.predict_spec",
                      "Cv.C13.predictOne_spec", "Cv.C13.fit_shift", "Cv.C13.predict_shift", "Cv.C13.forecast_shift",
-                     "Cv.C13.cumsum_difference"]
+                     "Cv.C13.cumsum_difference", "Cv.C13.acf_degenerate", "Cv.C13.acovf_empty", "Cv.C13.fit_toeplitz_entry",
+                     "Cv.C13R.ar_fit_total_real_example", "Cv.C13R.ar_fit_total_real_example_coeffs"]
+# Of these, acovf_even / acf_even (simp with Int.natAbs_neg), acovf_empty, difference_empty are unfolding-level facts, not
+# headline results; acovf_def carries the guard ts != [] and acf_def / acf_zero / acf_abs_le_one / the acf half of
+# acovf_large_lag carry the guard of non-zero variance (acf_degenerate is the complementary statement: the code forms 0/0).
 RULE = ("series of length 10..5000 from stationary AR(1..6) (random partial autocorrelations), plus linear trends, "
         "constant-plus-noise and offsets up to 1e6; every lag -50..50 (and lags beyond the length on short series); "
         "orders 1..8; horizons 1..1000; shift pairs (series, series + c); explicit-state forecasts incl. histories "
@@ -39,7 +43,14 @@ NOT_PROVED = [
     "the rounding-bound oracle)",
 ]
 TRUSTED = ["Lean Float arithmetic = Rust f64 arithmetic (measured)", "Iterator::sum folds from -0.0 (observed)",
-           "Python integers/fractions and mpmath for the references"]
+           "Python integers/fractions and mpmath for the references",
+           "AR::fit (mean, centring, acf calls, toeplitz, invert_matrix, matmul, the coefficient reversal) and AR::predict (the "
+           "forecast loop over the centred window) are HAND-MODELLED in Model/Timeseries.lean and tied to the Rust text only by "
+           "the bit-exact run-time correspondence (incl. the ar_refit / order-8 / seasonal strata), not by the translator; only "
+           "AR::predict_one / predict_one_centred and the accumulation loops of acovf / acf / difference are source-tied. The "
+           "reversal and the forecast loop are where F23 and F42 were found",
+           "IEEE semantics of the degenerate cases (empty or constant series: acovf_empty / acf_degenerate say the code forms "
+           "1/0 * -0 resp. 0/0; that this is NaN is observed on the implementation, corpus lines acf-constant / empty)"]
 ASSUMPTIONS = ["lags fit in i32 and |k| != i32::MIN; orders p with p^2 < 2^24 (is_square's f32 root)"]
 
 U = 2.0 ** -53
@@ -212,6 +223,11 @@ def gen_strata(rng, tier, add):
         a = float(rng.randint(1, 6))
         hist = [ic + v for v in ([a, 0.0, -a, 0.0] * 4)[:8 + rng.randint(0, 3)]]
         add("ar_pred seasonal-state:p%d %s %s %d %s" % (p, f2h(ic), vec(co), rng.choice([4, 9, 16]), vec(hist)), "strata:seasonal")
+    # zero variance (constant series with an exactly computed mean) and empty series
+    for _ in range(6 * m):
+        c = rng.randint(-40, 40) / 4.0
+        add("acs constant:small %d %s" % (rng.randint(0, 4), vec([c] * rng.randint(1, 20))), "strata:degenerate")
+    add("acs empty:small 2 0", "strata:degenerate")
     # exact special values as data
     for _ in range(30 * m):
         n = rng.choice([10, 12, 16, 17, 33, rng.randint(10, 80)])
@@ -348,6 +364,11 @@ def corpus():
     L.append("acs corpus 5 %s" % vec(base))
     L.append("diff corpus %s" % vec([1.0, 4.0, 9.0, 16.0]))
     L.append("diff corpus-empty 0")
+    # degenerate series (acf_degenerate / acovf_empty): zero variance -> 0/0, empty -> 1/0 * -0
+    L.append("acf constant 1 %s" % vec([2.5] * 7))
+    L.append("acs constant 3 %s" % vec([-4.0] * 5))
+    L.append("acf empty 0 0")
+    L.append("acovf empty 2 0")
     # one object fitted twice: the second fit must overwrite every trace of the first (p coefficients, not 2p)
     L.append("ar_refit refit:c0:p2:k2 2 3 2 %s %s" % (vec(base), vec([v * v - 1.0 + 0.5 * i for i, v in enumerate(base)])))
     # F42 witness: history shorter than the order; stored coeffs [phi3, phi2, phi1] = [1/8, 1/4, 1/2], history [1]: 0.5
@@ -423,7 +444,25 @@ def note(name, ratio):
 def check_acs(ts, lags, acov_vals, acf_vals, key, i, fails):
     """definitions (exact), evenness (bit-exact), acf(0) = 1, |acf| <= 1, lags beyond the length give 0."""
     n = len(ts)
-    if n == 0 or not finite(ts):
+    if n == 0:
+        # acovf_empty: 1/0 * -0 and (1/0 * -0) / (-0/0): NaN
+        for k, cv, rv in zip(lags, acov_vals, acf_vals):
+            for name, v in (("acovf", cv), ("acf", rv)):
+                if v is not None and v == v:
+                    fails.append(Failure(i, "%s:empty" % name, "%s of an empty series at lag %d is %r, expected NaN (1/0 * -0)" % (name, k, v)))
+                    return
+        return
+    if not finite(ts):
+        return
+    if len(set(ts)) == 1 and n <= 1000 and abs(ts[0]) < 2.0 ** 20 and float(ts[0] * 4).is_integer():
+        # acf_degenerate: constant series whose mean is computed exactly: every centred value is 0, acovf = 0, acf = 0/0
+        for k, cv, rv in zip(lags, acov_vals, acf_vals):
+            if cv is not None and not cv == 0.0:
+                fails.append(Failure(i, "acovf:constant", "acovf of the constant series %r (n = %d) at lag %d is %r, expected 0" % (ts[0], n, k, cv)))
+                return
+            if rv is not None and rv == rv:
+                fails.append(Failure(i, "acf:constant", "acf of the constant series %r (n = %d) at lag %d is %r, expected NaN (0/0: zero variance)" % (ts[0], n, k, rv)))
+                return
         return
     K = max(abs(k) for k in lags)
     A = Acov(ts, min(K, n))
@@ -933,3 +972,15 @@ NOT_PROVED = list(NOT_PROVED) + ['the Yule-Walker solve IS bounded end to end as
 # --- source tie (translator pass 5: AR::predict_one / predict_one_centred incl. the short-history branch, Generated/SrcC13Mut.lean, Props/SrcTieC13Mut.lean)
 from . import srctie
 srctie.wire_mut(globals(), 'C13')
+
+# --- review fixes (C13 owner): wording of the claims wired above
+def _reword(x):
+    x = str(x)
+    x = x.replace("unconditionally for a non-singular Toeplitz matrix (exact arithmetic)",
+                  "without the inverse hypothesis, over an ordered field whose sqrt and abs are exact (e.g. the reals; not Q), for a "
+                  "non-singular Toeplitz autocorrelation matrix (ar_fit_total; instantiated over R in Props/C13Review)")
+    return x
+NOT_PROVED = [_reword(x) for x in NOT_PROVED]
+NOT_PROVED = NOT_PROVED + ["the convergence theorems of Props/C13Conv take ARBITRARY coefficients with sum|phi_j| < 1 or roots inside the "
+                           "unit disc; only fit_forecast_tendsto mentions arFit. That a given fit meets either condition is not proved "
+                           "(oracle: horizon >= 200 convergence check on stationary fits)"]
